@@ -21,6 +21,15 @@ type MW struct {
 	Focus   string      `json:"focus"`
 	Plugins []C07Plugin `json:"plugins"`
 	Callers [][]*MReq   `json:"callers"`
+	// Exits (single-caller workloads only): the named plugin stops itself after the caller's request
+	// with the given index has returned; once that has settled the later requests are merged from the
+	// remaining plugins, still in index order.
+	Exits []MExit `json:"exits,omitempty"`
+}
+
+type MExit struct {
+	Plugin   string `json:"plugin"`
+	AfterReq int    `json:"after_req"`
 }
 
 // ---- builders: workload items -> real protocol messages ---------------------------------
@@ -512,6 +521,9 @@ func mergeGen(focus string) func(rng *rand.Rand, conf string, idx int) any {
 		w := &MW{Focus: focus}
 		names := []string{"ada", "ben", "cal", "dee", "eli"}
 		n := 2 + rng.Intn(4)
+		if conf == "deep" {
+			n = 4 + rng.Intn(2)
+		}
 		if conf == "two" {
 			n = 2
 		}
@@ -521,7 +533,7 @@ func mergeGen(focus string) func(rng *rand.Rand, conf string, idx int) any {
 			w.Plugins = append(w.Plugins, C07Plugin{Name: names[k], Idx: fmt.Sprintf("%02d", idxs[k])})
 		}
 		order := invocationOrder(w.Plugins)
-		m := 1 + rng.Intn(3)
+		m := 1 + rng.Intn(3*deep(conf))
 		for c := 0; c < m; c++ {
 			var reqs []*MReq
 			for k, nr := 0, 1+rng.Intn(3); k < nr; k++ {
@@ -544,6 +556,10 @@ func mergeGen(focus string) func(rng *rand.Rand, conf string, idx int) any {
 				reqs = append(reqs, g.genReq(kind, fmt.Sprintf("c%d-%d", c, k), order, collide, focus))
 			}
 			w.Callers = append(w.Callers, reqs)
+		}
+		if len(w.Callers) == 1 && len(w.Callers[0]) >= 2 && n >= 3 && rng.Intn(2) == 0 {
+			// a plugin other than the last ones in the order goes away part-way
+			w.Exits = append(w.Exits, MExit{Plugin: order[rng.Intn(n-1)], AfterReq: rng.Intn(len(w.Callers[0]) - 1)})
 		}
 		return w
 	}
@@ -615,7 +631,16 @@ func mergeRun(t *testing.T, wl any, sc SchedCfg) *Result {
 				outs = append(outs, mine[k])
 			}
 			e.Task(fmt.Sprintf("caller%d", ci), func() {
-				for _, o := range mine {
+				for k, o := range mine {
+					if k > 0 {
+						for _, ex := range w.Exits {
+							if ex.AfterReq == k-1 && h.Plugs[ex.Plugin] != nil {
+								h.Plugs[ex.Plugin].Stub.Stop()
+								e.S.Settle(fmt.Sprintf("caller%d", ci))
+								e.S.Probe("merge.plugin-exit-between-requests")
+							}
+						}
+					}
 					rq := o.Req
 					pod := &api.PodSandbox{Id: "pod-" + rq.ID, Name: "pod"}
 					switch rq.Kind {
@@ -638,7 +663,22 @@ func mergeRun(t *testing.T, wl any, sc SchedCfg) *Result {
 		entries := h.entriesCopy()
 		var all []Violation
 		sums := []string{}
-		for _, o := range outs {
+		gone := map[string]int{} // plugin -> index of the first request it no longer takes part in
+		for _, ex := range w.Exits {
+			gone[ex.Plugin] = ex.AfterReq + 1
+		}
+		for oi, o := range outs {
+			order := order
+			if len(gone) > 0 {
+				var rest []string
+				for _, p := range order {
+					if g, ok := gone[p]; ok && oi >= g {
+						continue
+					}
+					rest = append(rest, p)
+				}
+				order = rest
+			}
 			vs, sum := mergeOracle(res, o, order, entries)
 			all = append(all, vs...)
 			sums = append(sums, sum)
@@ -1091,6 +1131,20 @@ func clip(s string) string {
 func mergeShrink(wl any) []any {
 	w := wl.(*MW)
 	var out []any
+	if len(w.Exits) > 0 {
+		c := jsonClone(w)
+		c.Exits = nil
+		out = append(out, c)
+		return append(out, mergeShrinkRest(w)...)
+	}
+	return mergeShrinkRest(w)
+}
+
+func mergeShrinkRest(w *MW) []any {
+	var out []any
+	if len(w.Exits) > 0 {
+		return nil // structural shrinking would shift the request indices the exits refer to
+	}
 	// whole callers, whole requests
 	for i := range w.Callers {
 		if len(w.Callers) > 1 {
@@ -1188,12 +1242,17 @@ func init() {
 	for _, id := range []string{"C01", "C02", "C03", "C04", "C05"} {
 		id := id
 		register(&Property{
-			ID:         id,
-			Gen:        mergeGen(id),
-			New:        func() any { return &MW{} },
-			Run:        mergeRun,
-			Shrink:     mergeShrink,
-			Confs:      func(tier string) []Conf { return []Conf{{Name: "random", Weight: 4}, {Name: "two", Weight: 1}} },
+			ID:     id,
+			Gen:    mergeGen(id),
+			New:    func() any { return &MW{} },
+			Run:    mergeRun,
+			Shrink: mergeShrink,
+			Confs: func(tier string) []Conf {
+				if tier == "thorough" {
+					return []Conf{{Name: "random", Weight: 4}, {Name: "two", Weight: 1}, {Name: "deep", Weight: 1}}
+				}
+				return []Conf{{Name: "random", Weight: 4}, {Name: "two", Weight: 1}}
+			},
 			Components: h1Components,
 			Rule:       rules[id] + "; non-trivial = a request in which the model predicted a conflict/self-update or at least two plugins replied; distinct = distinct event-log hash",
 		})
